@@ -59,8 +59,19 @@ def params(fn) -> list[str]:
     return out
 
 
+_local_cache: dict = {}
+
+
 def local_names(fn) -> set[str]:
     """Names bound in fn's own scope (exact Python rule, minus global/nonlocal declarations)."""
+    r = _local_cache.get(id(fn))
+    if r is None or r[0] is not fn:
+        r = (fn, _local_names(fn))
+        _local_cache[id(fn)] = r
+    return r[1]
+
+
+def _local_names(fn) -> set[str]:
     out = set(params(fn))
     declared = set()
     for n in own_nodes(fn):
